@@ -481,6 +481,26 @@ def literal_rules(ctx):
                               "unchecked %s `%s` on a literal accumulator: panics in debug builds, wraps in release (%s)" % (ty, op, a["kind"][:80]),
                               witness="{{ 99999999999999999999 }} / {{ 0x7fffffffffffffff0 }}"))
     obs.append(ob("C03.literal/scan", True, "parse/expr.rs", "assert terminators of parse::expr scanned: %d" % n))
+    # an integer literal is stored as the value that was accumulated: no sign-changing / narrowing cast on the way into `LitInt`
+    pn = [f for f in ctx.tc.fns if f.name == "parse_number" and f.body]
+    if pn:
+        f = pn[0]
+        unsigned = set()
+        for l_ in sir.walk(f.body):
+            if l_.get("k") == "local" and l_["pat"].get("k") == "p_ident" and l_.get("init") is not None:
+                t_ = (l_.get("ty") or "") + " " + " ".join(str(x.get("raw") or x.get("v")) + str(x.get("suffix") or "") for x in sir.walk(l_["init"]) if x.get("k") == "lit")
+                if re.search(r"\b(u64|u128|usize|u32)\b", sir.expr_str(l_["init"]) + " " + t_):
+                    unsigned.add(l_["pat"]["name"])
+        bad = []
+        for st_ in sir.walk(f.body):
+            if st_.get("k") == "struct" and st_["segs"][-1] == "LitInt":
+                for fl in st_["fields"]:
+                    if fl["name"] == "value":
+                        for c_ in sir.walk(fl["e"]):
+                            if c_.get("k") == "cast" and re.fullmatch(r"i(8|16|32|64|128|size)", (c_.get("ty") or "").strip()):
+                                bad.append("%s as %s" % (sir.expr_str(c_["e"])[:30], c_["ty"]))
+        obs.append(ob("C03.literal/stored-as-accumulated", not bad, ctx.where(f), "the accumulated integer is stored in LitInt without a cast" if not bad else "the value stored in LitInt goes through the cast `%s`: values beyond the signed range change sign" % bad[0],
+                      witness=None if not bad else "{{ a - 9223372036854775808 }} emits `D.a--9223372036854775808`"))
     obs += float_display_rule(ctx, "C03.literal")
     return obs
 
